@@ -61,10 +61,10 @@ def main(tier, seed):
     cov['samples'] = [h for _t, h in obs[100:102]]
     spec_set = set(failing['spec'])
     for i in failing['spec']:
-        dec.report(dict(kind='wrong-answer', **obs[i][1]))
+        dec.report(dict(obs[i][1], kind='wrong-answer'))
     for i in failing['corr']:
         if i not in spec_set:
-            dec.report(dict(kind='model-differs', theorem='correspondence accept_corr', **obs[i][1]), no_input=True)
+            dec.report(dict(obs[i][1], kind='model-differs', theorem='correspondence accept_corr'), no_input=True)
     for name, out in broken:
         dec.report(dict(kind='case-file-broken', file=name, detail=out), no_input=True)
     run.keep = bool(dec.violations)
